@@ -41,6 +41,8 @@ class Variant:
     props: List[List[Tuple[str, object]]] = field(default_factory=list)  # groups of (key, py literal)
     raw_attrs: List[str] = field(default_factory=list)   # extra attribute lines, verbatim
     attr_order: Optional[List[str]] = None   # order of serialize/to_string items; default: serialize.. then to_string
+    attr_style: str = "joined"               # joined: one #[strum(a, b)] | split: one attribute per item | trailing: #[strum(a, b,)]
+    flags_last: bool = False                 # emit the bare flags (disabled/default/transparent) AFTER the key = value items
 
     @property
     def kind(self):
@@ -258,12 +260,15 @@ def variant_attr_items(v: Variant):
         seq = [seq[i] for i in v.attr_order]
     for k, s in seq:
         items.append("%s = %s" % (k, rust_str(s)))
+    flags = []
     if v.disabled:
-        items.append("disabled")
+        flags.append("disabled")
     if v.default:
-        items.append("default")
+        flags.append("default")
     if v.transparent:
-        items.append("transparent")
+        flags.append("transparent")
+    if not v.flags_last:
+        items.extend(flags)
     if v.aci is not None:
         if v.aci and v.aci_bare:
             items.append("ascii_case_insensitive")
@@ -275,6 +280,8 @@ def variant_attr_items(v: Variant):
         items.append("message = %s" % rust_str(v.message))
     if v.detailed_message is not None:
         items.append("detailed_message = %s" % rust_str(v.detailed_message))
+    if v.flags_last:
+        items.extend(flags)
     return items
 
 
@@ -284,7 +291,13 @@ def render_variant(v: Variant):
         lines.append("    #[doc = %s]" % rust_str(d))
     items = variant_attr_items(v)
     if items:
-        lines.append("    #[strum(%s)]" % ", ".join(items))
+        if v.attr_style == "split":
+            for it in items:
+                lines.append("    #[strum(%s)]" % it)
+        elif v.attr_style == "trailing":
+            lines.append("    #[strum(%s,)]" % ", ".join(items))
+        else:
+            lines.append("    #[strum(%s)]" % ", ".join(items))
     for g in v.props:
         lines.append("    #[strum(props(%s))]" % ", ".join("%s = %s" % (k, _prop_lit(val)) for k, val in g))
     for a in v.raw_attrs:
